@@ -87,7 +87,7 @@ def run_concrete(h, params, values):
     core._set_ctx(None)
     res = {"status": "ok", "exception": None}
     try:
-        with shims.clock(h.clock_modules):
+        with shims.env_stubs(), shims.clock(h.clock_modules):
             h.fn(c, **params)
     except Infeasible:
         res["status"] = "infeasible"
@@ -136,8 +136,8 @@ def run_path(h, params, prefix, timeout_ms, stats, viol_budget, selfcheck):
     out = {"status": "ok", "pending": None, "obligations": 0, "discharged": 0, "nontrivial": 0, "violations": [],
            "unconfirmed": [], "inconclusive": [], "covers": None, "selfcheck": None, "sample": None, "reach": {}}
     try:
-        with shims.installed(h.clock_modules, merge_minmax=h.merge_minmax) as used:
-            out["shims"] = used
+        with shims.env_stubs(), shims.installed(h.clock_modules, merge_minmax=h.merge_minmax) as used:
+            out["shims"] = used + ["time.sleep=no-op in orderpackage/simulatedexecution (both modes)"]
             try:
                 h.fn(c, **params)
             except GuardTripped:
@@ -541,7 +541,7 @@ def run_property(pid, harnesses, tier, seed, meta):
     for kid, (k, n) in known_hit.items():
         print("KNOWN-FINDING: property=%s %s [%s; %d occurrence(s)]" % (pid, k["summary"], kid, n), flush=True)
     n = 0
-    for v in new_viol[:20]:
+    for v in new_viol[: int(os.environ.get("VERIF_MAXVIOL", "20"))]:
         n += 1
         path = os.path.join(VERIF, "replays", "%s-%d.json" % (pid, n))
         with open(path, "w") as f:
